@@ -11,6 +11,8 @@ struct Box[T] { v: T }
 enum Opt[T] { None_, Some_(T) }
 struct Two[T, U] { l: T, r: U }
 struct Ops { tag: string, inc: (int32) -> int32, get: () -> int32 }
+struct Cfg { name: Opt[string], size: Opt[int32], bx: Box[int32], nested: Box[Opt[bool]] }
+enum Sh { Circle(Box[int32]), Sq(Opt[int32], int32), Both((Box[int32], Opt[string])) }
 trait Tick { fn val(Self) -> int32; fn xval(Self) -> int32; fn addv(Self, int32) -> int32; fn tick(Self) -> unit; }
 struct K { c: Ref[int32] }
 impl Tick for K {
@@ -56,6 +58,10 @@ FEATURES = {
     "gen_struct": ("let qb: Box[int32] = Box { v: k };", "qb.v + 1"),
     "gen_nested": ("let qb: Box[Opt[int32]] = Box { v: Some_(k) };", "(match qb.v { Some_(qz) => qz, None_ => 0 })"),
     "gen_two": ("let qt: Two[bool, int32] = gtwo(k, true);", "(if qt.l { qt.r } else { 0 })"),
+    "gen_field": ('let qc = Cfg { name: Some_("x"), size: Some_(k), bx: Box { v: 5 }, nested: Box { v: Some_(true) } };',
+                  "(match qc.size { Some_(qz) => qz + qc.bx.v, None_ => 0 }) + (match qc.nested.v { Some_(qb) => if qb { 1 } else { 0 }, None_ => 2 })"),
+    "gen_payload": ("let qs = Sq(Some_(k), 2);", "(match qs { Circle(qb) => qb.v, Sq(qo, qn) => gor(qo, 0) + qn, Both(qp) => qp.0.v })"),
+    "gen_payload2": ("let qs = Both((Box { v: k }, None_));", "(match qs { Circle(qb) => qb.v, Sq(_, qn) => qn, Both(qp) => qp.0.v + (match qp.1 { Some_(_) => 1, None_ => 0 }) })"),
     "dyn_prim": ("let qd: dyn Tick = k;", "Tick::val(qd) + Tick::xval(qd)"),
     "dyn_struct": ("let qk = K { c: ref(k) }; let qd: dyn Tick = qk; let _ = Tick::tick(qd);", "Tick::addv(qd, 5) + Tick::xval(qd)"),
     "dyn_generic": ("let qb: Box[int32] = Box { v: k }; let qd: dyn Tick = qb;", "Tick::xval(qd) + Tick::val(qd)"),
@@ -81,6 +87,16 @@ FEATURES = {
     "method": ("let qp = P { a: k, b: true };", "qp.sum(2) + P::sum(qp, 1)"),
     "if_chain": ("", "(if k > 5 { 1 } else { if k > 1 { k } else { 0 } })"),
     "int_match": ("", "(match k { 0 => 10, 1 => 11, 3 => 13, _ => k })"),
+    # unit-valued statements whose value is discarded: some arms do nothing, others have an effect
+    "unit_match_lit": ('let _ = match k { 0 => (), _ => string_println("other") };', "k"),
+    "unit_match_lit2": ('let _ = match k { 0 => string_println("zero"), 3 => (), _ => () };', "k + 1"),
+    "unit_match_stmt": ('match k { 3 => (), 0 => string_println("z"), _ => string_println("o") };', "k"),
+    "unit_match_str": ('let _ = match int32_to_string(k) { "0" => (), "3" => string_println("three"), _ => () };', "k"),
+    "unit_match_enum": ('let _ = match B(k) { A => (), B(qn) => string_println(int32_to_string(qn)), C(_, _) => () };', "k"),
+    "unit_match_bool": ('let _ = match k > 1 { true => (), false => string_println("small") };', "k"),
+    "unit_if": ('let _ = if k > 0 { () } else { string_println("nonpos") };', "k"),
+    "unit_if2": ('if k > 0 { string_println("pos") } else { () };', "k"),
+    "unit_while_match": ('let qc = ref(0); while ref_get(qc) < 2 { let _ = match ref_get(qc) { 0 => (), _ => string_println("it") }; ref_set(qc, ref_get(qc) + 1) };', "ref_get(qc)"),
 }
 
 # positions: name -> (extra top-level items, function body) with {S} = the feature's statements, {X} = its expression,
@@ -180,8 +196,9 @@ def programs(rng, per=6, cells=None):
 SUBSETS = {
     "generic": (lambda p, f: f.startswith("gen_") or f == "dyn_generic" or p.startswith("generic_") or p in ("gen_struct_field", "enum_payload")),
     "closure": (lambda p, f: f.startswith("closure") or f == "fn_value" or "closure" in p),
-    "effect": (lambda p, f: f in ("effect", "effect2", "tuple_pat_wild", "tuple_pat_wild2", "struct_lit_order", "dyn_struct", "closure_ref", "ref", "while", "vec")
+    "effect": (lambda p, f: f in ("effect", "effect2", "tuple_pat_wild", "tuple_pat_wild2", "struct_lit_order", "dyn_struct", "closure_ref", "ref", "while", "vec") or f.startswith("unit_")
                or p in ("discard", "let_tuple", "let_tuple2", "block_tail", "while_cond", "while_body", "while_body_last")),
+    "match": (lambda p, f: "match" in f or "match" in p or f.startswith("gen_enum") or f in ("gen_nested", "struct_pat", "tuple_pat_wild", "tuple_pat_wild2", "unit_if", "unit_if2") or p in ("let_tuple", "let_tuple2", "enum_payload")),
     "calls": (lambda p, f: f.startswith("dyn_") or f in ("trait_static", "method", "fn_value") or p in ("method_arg", "method_recv", "method_body", "trait_method_body", "dyn_arg")),
 }
 
